@@ -131,6 +131,41 @@ fn near_duplicate_rows<T: RealNumber>(rng: &mut Rng, x: &mut Mat) {
 /// 2..=min(8, number of distinct rows of the rounded data), so "at least k distinct rows" is generated.
 fn gen_rows(rng: &mut Rng, kind: &str, n: usize, d: usize) -> Mat {
     match kind {
+        "multiplicities" => {
+            // three groups on a line -- a light point, a light pair and a heavy pair, half-integer positions,
+            // multiplicities 1..4 -- reflected / shifted / rescaled by a power of two. With k = 3 the stale
+            // k-means++ partition regularly produces a centroid between the groups that loses every member in the
+            // first Lloyd step (measured: about 0.15 % of the fits), i.e. a memberless cluster with a centroid
+            // different from all others.
+            let w = *rng.pick(&[0.5, 1.0, 1.5]);
+            let g1 = rng.int(5, 9) as f64 * 0.5;
+            let g2 = rng.int(7, 12) as f64 * 0.5;
+            let mut vals: Vec<f64> = Vec::new();
+            for _ in 0..rng.us(1, 3) {
+                vals.push(0.0);
+            }
+            for _ in 0..rng.us(1, 2) {
+                vals.push(g1);
+            }
+            for _ in 0..rng.us(1, 2) {
+                vals.push(g1 + w);
+            }
+            for _ in 0..rng.us(2, 4) {
+                vals.push(g1 + w + g2);
+            }
+            for _ in 0..rng.us(2, 4) {
+                vals.push(g1 + w + g2 + w);
+            }
+            let sgn = if rng.bool(0.5) { 1.0 } else { -1.0 };
+            let sc = 2f64.powi(rng.int(-3, 3) as i32);
+            let sh = rng.int(-10, 10) as f64 * 0.5;
+            let d = if rng.bool(0.8) { 1 } else { d.min(2) };
+            let other = rng.int(-4, 4) as f64;
+            let mut rows: Vec<Vec<f64>> = vals.iter().map(|v| (0..d).map(|j| if j == 0 { sgn * sc * (v + sh) } else { other }).collect()).collect();
+            let _ = n;
+            rng.shuffle(&mut rows);
+            Mat::from_rows(&rows)
+        }
         "lattice" => {
             // integer lattice {0..L-1}^d times a dyadic/integer step: exact ties and duplicates
             let lmin = match d {
@@ -616,9 +651,10 @@ fn fit_case_t<T: W>(c: &mut Case, kind: &str, scaled: bool) {
         c.skip("squared distances of the rescaled data would come within 1e3 of the overflow threshold of the float width");
         return;
     }
-    let k = c.rng.us(2, 8.min(dat.distinct));
+    let drawn_k = c.rng.us(2, 8.min(dat.distinct));
+    let k = if kind == "multiplicities" && dat.distinct >= 3 && drawn_k % 4 != 0 { 3 } else { drawn_k };
     let max_iter = {
-        let r = c.rng.f();
+        let r = if kind == "multiplicities" { 0.5 + 0.5 * c.rng.f() } else { c.rng.f() };
         if r < 0.3 {
             c.rng.us(1, 3)
         } else if r < 0.7 {
@@ -749,6 +785,14 @@ fn fit_case_t<T: W>(c: &mut Case, kind: &str, scaled: bool) {
                 })
                 .collect::<Vec<_>>(),
         );
+        // a cluster that ended without members is still one of the k returned centroids: query it directly
+        let mut q = q;
+        for cl in 0..k {
+            if cnt[cl] == 0 && finite {
+                q = q.vstack(&Mat::from_rows(&[st.cents[cl].iter().map(|v| round_t::<T>(*v)).collect::<Vec<f64>>()]));
+                c.bucket("predict:query-at-memberless-centroid");
+            }
+        }
         if !q.all_finite() {
             continue;
         }
@@ -1021,6 +1065,7 @@ fit_family!(fit_duplicates, "duplicates", false, 0.2);
 fit_family!(fit_collinear, "collinear", false, 0.2);
 fit_family!(fit_near_duplicates, "near-duplicates", false, 0.3);
 fit_family!(fit_scaled, "any", true, 0.2);
+fit_family!(fit_multiplicities, "multiplicities", false, 0.2);
 
 fn assign(c: &mut Case) {
     if c.rng.bool(0.2) {
@@ -1064,6 +1109,7 @@ fn main() {
             Family::new("fit_collinear", 500, 15000, fit_collinear),
             Family::new("fit_near_duplicates", 300, 6000, fit_near_duplicates),
             Family::new("fit_scaled", 600, 18000, fit_scaled),
+            Family::new("fit_multiplicities", 1500, 40000, fit_multiplicities),
             Family::new("assign", 4500, 135000, assign),
             Family::new("assign_scaled", 1000, 30000, assign_scaled),
             Family::new("assign_enum", 16384, 16384, assign_enum).exhaustive(true, true),
